@@ -8,6 +8,8 @@
 #[path = "/repo/src/analyzers/mod.rs"] pub mod analyzers;
 #[path = "/repo/src/threadpool.rs"] pub mod threadpool;
 #[path = "/repo/src/analyzers_v2/mod.rs"] pub mod analyzers_v2;
+#[cfg(gold_lsp_verif)]
+#[path = "/repo/src/verif_hooks.rs"] pub mod verif_hooks;
 
 mod common;
 mod treedump;
